@@ -470,6 +470,11 @@ class Zeroconf(QuietLogger):
     async def async_unregister_service(self, info: ServiceInfo) -> Awaitable:
         """Unregister a service."""
         info.set_server_if_missing()
+        # The service may have been updated with another ServiceInfo since the
+        # caller registered this one, say goodbye to what is registered now
+        registered = self.registry.async_get_info_name(info.key)
+        if registered is not None:
+            info = registered
         self.registry.async_remove(info)
         # If another server uses the same addresses, we do not want to send
         # goodbye packets for the address records
